@@ -2,6 +2,7 @@ package jsonparser
 
 import (
 	"bytes"
+	"math"
 	"reflect"
 
 	"fmt"
@@ -84,6 +85,10 @@ func (p *Parser) parseHeader(data []byte) (header *parser.PacketHeader, buf []by
 			return nil, nil, "", err
 		}
 
+		if attachments > math.MaxInt32 {
+			// Would overflow int (and no peer sends that many): the parser would wait forever.
+			return nil, nil, "", errMalformedPacket
+		}
 		header.Attachments = int(attachments)
 
 		if i+1 < len(data) {
@@ -104,6 +109,10 @@ func (p *Parser) parseHeader(data []byte) (header *parser.PacketHeader, buf []by
 			}
 		}
 
+		if i == len(data) {
+			// The namespace must be terminated by a comma.
+			return nil, nil, "", errMalformedPacket
+		}
 		header.Namespace = string(data[:i])
 		data = data[i+1:]
 	} else {
